@@ -254,10 +254,22 @@ def make_leaf(M, mk, kind, n, tag="a"):
         # rank-2 update of a 2x2 matrix (dim_inner = 2: the capacitance matrix is a genuine 2x2, not its own transpose)
         if n != 2:
             raise Skip("rank-2 leaf defined for n = 2")
-        Lf = mk.arr(p + "_lf", (2, 2))
-        Rf = mk.arr(p + "_rf", (2, 2))
+        # structured factors (fewer symbols keep the normal forms small) that still give a NON-symmetric capacitance matrix
+        Lf = zeros(mk, (2, 2))
+        Rf = zeros(mk, (2, 2))
+        if mk.symbolic:
+            from symx.core import SV as _SV
+            cst = _SV
+            for arr_ in (Lf, Rf):
+                for idx in np.ndindex(2, 2):
+                    arr_[idx] = _SV(0)
+        else:
+            cst = float
+        Lf[0, 0], Lf[0, 1], Lf[1, 1] = mk.real(p + "_l0"), cst(1), mk.real(p + "_l1")
+        Rf[0, 0], Rf[1, 0], Rf[1, 1] = cst(1), mk.real(p + "_r0"), cst(2)
         d = mk.arr(p + "_sq", 2, "nonzero")
-        kk = mk.arr(p + "_in", 2, "nonzero")
+        kk = zeros(mk, 2)
+        kk[0], kk[1] = mk.nonzero(p + "_in"), cst(1)
         dense = np.diag(d) + Lf @ np.diag(kk) @ Rf
         mk.require(_nz(det(dense)))
         cap = None
